@@ -574,6 +574,10 @@ class Interp:
                 nf = a[1].add(b[1] if op == 'Add' else -b[1])
                 return ('int', self.wrap_to(nf, ty), ty)
             return self.binop(op, a, b, ty)
+        if path.startswith('core::num::<impl i') and name == 'unsigned_abs' and len(args) == 1 and args[0][0] == 'const':
+            # |c| of a constant, in the unsigned type of the same width (`iN::MIN.unsigned_abs()` is 2^(N-1))
+            ty = path[len('core::num::<impl '):].split('>')[0]
+            return ('const', abs(args[0][1]), 'u' + ty[1:])
         if path.startswith('core::num::<impl ') and name == 'abs_diff' and len(args) == 2:
             # |a - b| in the unsigned type of the same width; with one constant operand the sign of a - b is decided per cell
             ty = path[len('core::num::<impl '):].split('>')[0]
